@@ -57,6 +57,17 @@ Definition depth_variance (t : tok) : res nvar :=
   do r <- depth_fold t;
   bterm_finalize (match r with Some x => x | None => bterm_zero end).
 
+(* the final depth term has a closed termination and a variant depth: finalize does not subtract
+   the closing boundary from variant ranges (the known class closed_variant_finalize of C10) *)
+Definition sterm_closed_variant (s : sterm) : bool :=
+  match s with (TClosed, Var _) => true | _ => false end.
+Definition depth_closed_variant (t : tok) : bool :=
+  match depth_fold t with
+  | Ok (Some (BConj s)) => sterm_closed_variant s
+  | Ok (Some (BDisj ss)) => existsb sterm_closed_variant ss
+  | _ => false
+  end.
+
 (* ---- size (TreeVariance<Size>) ------------------------------------------------------------------ *)
 Definition size_leaf (l : leaf) : nvar :=
   match l with
@@ -166,6 +177,28 @@ Fixpoint take_while {A} (p : A -> bool) (l : list A) : list A :=
   | a :: l' => if p a then a :: take_while p l' else []
   end.
 
+(* every leaf of the token satisfies the sequencer's predicate (walk::forward(token)...all(is_unbounded)) *)
+Fixpoint all_unbounded (t : tok) : bool :=
+  match t with
+  | TLeaf _ _ => exh_takes t
+  | TAlt _ bs => forallb all_unbounded bs
+  | TCat _ ts => forallb all_unbounded ts
+  | TRep _ b _ _ => all_unbounded b
+  end.
+
+(* TreeExhaustiveness::enqueue on the reversed children (after the repair): leaves are taken while
+   they are unbounded; a branch is always taken, and in a conjunctive parent a branch with some
+   bounded leaf is the last token taken *)
+Fixpoint take_exh {A} (conj : bool) (l : list (tok * A)) : list (tok * A) :=
+  match l with
+  | [] => []
+  | (t, a) :: l' =>
+      match t with
+      | TLeaf _ _ => if exh_takes t then (t, a) :: take_exh conj l' else []
+      | _ => if conj && negb (all_unbounded t) then [(t, a)] else (t, a) :: take_exh conj l'
+      end
+  end.
+
 Definition exh_maybe (o : option bterm) : bool :=
   match o with
   | Some t => match bterm_is_exhaustive t with Never => false | _ => true end
@@ -183,21 +216,21 @@ Fixpoint exh_fold (t : tok) : res (option bterm) :=
   match t with
   | TLeaf _ l => Ok (Some (depth_leaf l))
   | TAlt _ bs =>
-      let enq := take_while (fun p => exh_takes (fst p)) (rev (combine bs (map exh_fold bs))) in
+      let enq := take_exh false (rev (combine bs (map exh_fold bs))) in
       do terms0 <- rmapM snd enq;
       let terms := flat_map opt_list terms0 in
       do sum <- rreduce rdisj terms;
       if Nat.eqb (length bs) (length terms) then Ok sum
       else if exh_maybe sum then Ok sum else Ok (Some bterm_zero)
   | TCat _ ts =>
-      let enq := take_while (fun p => exh_takes (fst p)) (rev (combine ts (map exh_fold ts))) in
+      let enq := take_exh true (rev (combine ts (map exh_fold ts))) in
       do terms0 <- rmapM snd enq;
       let terms := flat_map opt_list terms0 in
       do sum <- rreduce bterm_conj terms;
       if Nat.eqb (length ts) (length terms) then Ok sum
       else if exh_maybe sum then Ok sum else Ok (Some bterm_zero)
   | TRep _ b lo hi =>
-      let enq := take_while (fun p => exh_takes (fst p)) [(b, exh_fold b)] in
+      let enq := take_exh true [(b, exh_fold b)] in
       do terms0 <- rmapM snd enq;
       let terms := flat_map opt_list terms0 in
       do sum <- rreduce bterm_conj terms;
